@@ -42,6 +42,7 @@ RULE = (
     "without and with explicit arguments). A case is non-trivial when at least one edge really changed the architecture AND at least one "
     "edge was stopped by a bound (or fell back), and all five monitors judged them; distinct = distinct case "
     "descriptions"
+    " Added: 12 % of the walk edges first call a method of the clone's nested modules (or of a plain module) with arguments it rejects (keyword of another module type / layer index that does not exist); only if the call raised and left the description unchanged does the real mutation follow on the same object"
 )
 ASSUMPTIONS = [
     "verdict on pattern A only (clone, then exactly one advertised method on the fresh clone); pattern B "
